@@ -918,6 +918,29 @@ def python_reset_rule(R, m, f):
     R.rule('R5-reset', 'ZoneSpecifier.init_for_year resets every attribute its fill helpers accumulate into before they run', floor=2)
     cls = f.cls
     memo = {}
+    # the key names what the other cache attributes hold: once one of them has been touched for the new year, nothing that
+    # can fail (a call) may come before the key is written - otherwise a failure leaves the old key on clobbered data
+    touched = None
+    keyed = False
+    behind = False
+    for s in f.node.body:
+        if isinstance(s, ast.If) and any(isinstance(x, ast.Return) for x in ast.walk(s)):
+            behind = True
+            continue
+        if not behind or keyed:
+            continue
+        writes = [_self_attr(t) for x in ast.walk(s) if isinstance(x, ast.Assign) for t in x.targets if _self_attr(t)]
+        calls = [x for x in ast.walk(s) if isinstance(x, ast.Call) and not ast.unparse(x.func).startswith(('logging.', 'print'))]
+        if touched and calls:
+            c = '%s:key-order' % f.name
+            R.instance('R5-reset', c, m.loc(s))
+            R.violation('R5-reset', c, m.loc(s), 'self.%s is already overwritten for the new year when %s() runs, and the cache key self.year is only written later: '
+                        'if that call fails, the old key stays on data that is no longer the old year\'s' % (touched, ast.unparse(calls[0].func)))
+            break
+        if 'year' in writes:
+            keyed = True
+        elif writes and touched is None:
+            touched = writes[0]
     reset = set()
     past_guard = False        # behind the "this year is cached" early return: from here on the cache is being refilled
     for s in f.node.body:
